@@ -13,8 +13,9 @@ EXTENDS Words
 \* character on both sides
 HyphenPts(s, wd) == {q + 1 : q \in {x \in (wd.a + 1)..(wd.e - 2) : s[x] = HY /\ IsAlnum(s[x - 1]) /\ IsAlnum(s[x + 1])}}
 
-\* the custom splitter of the harness: a split point after every `k`-th character of the word
-EveryPts(s, wd, k) == {q \in (wd.a + 1)..(wd.e - 1) : (q - wd.a) % k = 0}
+\* the custom splitter of the harness: a split point after every `k`-th character of the word,
+\* but never directly after a space (Unicode-separator words may contain spaces)
+EveryPts(s, wd, k) == {q \in (wd.a + 1)..(wd.e - 1) : (q - wd.a) % k = 0 /\ s[q - 1] # SP}
 
 \* splitter: "none" | "hyphen" | "every2" | "every3"
 SplitPts(s, wd, splitter) ==
